@@ -4,11 +4,11 @@
 # Optional extra arguments: other properties whose checks should also be tried when the first misses it.
 set -u
 prop="$1"; shift; others="$*"
-wt=/tmp/seed-$prop
+wt=${SEED_WT:-/tmp/seed-$prop}; off=${SEED_OFFSET:-0}
 for d in $wt/out/*/; do
   k=$(basename $d)
   [ -f $d/patch.diff ] || continue
-  dest=/verif/seeded/$prop-$k; mkdir -p $dest
+  dest=/verif/seeded/$prop-$((k+off)); mkdir -p $dest
   cp $d/patch.diff $d/demo.diff $dest/ 2>/dev/null; cp $d/notes.md $dest/ 2>/dev/null
   f=$(python3 - "$d/demo.diff" <<'PY'
 import re,sys
